@@ -77,15 +77,19 @@ class P(Prop):
         (M, "TV.C10.front_end_sound_3d", "mapOnNetwork on a network and tracks with altitudes: every processed track keeps its observations (3D positions), gets the three columns, every hmm_inference entry is one of STATES[k]: the flag state or matched as in states_flag_or_matched_3d"),
         (M, "TV.C10.matched_on_built_network_3d", "a network built by addEdge from LINESTRING(x y z)-made edges stores the n-th geometry under number n WITH its altitudes; a matched state lies on the planimetric vertices of THAT geometry, distances adding up to its planimetric length"),
         (M, "TV.C10.near_edge_is_candidate_3d", "near_edge_is_candidate with altitudes: the index reads x, y only"),
+        (M, "TV.C10.returns_on_regular_geometries", "on edges with computed abs_curv columns whose geometries have no kept vertical segment and at least one kept segment, candidate lists of existing edge numbers and in-range decoded indices: __mapOnNetwork raises nothing"),
+        (M, "TV.C10.states_returned_3d", "the same for STATES[i] on data with altitudes: whether the projection can raise is decided by the planimetric geometry alone"),
     ]
     partial = []
     open_statements = ["completeness of the candidates in terms of the search radius (no edge within the radius is missed) is not claimed by the property and does not hold in general: "
                        "__mapOnNetwork derives the search unit from the NUMBERS of cells (ceil(search_radius / min(csize, lsize))), not from the cell size; near_edge_is_candidate states "
                        "the hypothesis under which C08's completeness carries over",
                        "the decoder's choice among the candidates (which sound candidate is inferred) is C09's subject; here only that the inferred state is one of STATES[k]",
-                       "exceptions are outside the theorems (every statement is about a call that returns): ZeroDivisionError of the projection on a vertical segment (finding D16, class "
-                       "vertical-segment-zerodiv), UnboundLocalError on a candidate edge all of whose vertices coincide (class zero-length-edge-unbound), AnalyticalFeatureError on a track "
-                       "without observation",
+                       "exceptions: the soundness theorems are about a call that returns; returns_on_regular_geometries says when it does (no kept vertical segment, no edge without a kept "
+                       "segment, candidates = existing edge numbers, in-range decoder). Outside: ZeroDivisionError of the projection on a vertical segment (finding D16, class "
+                       "vertical-segment-zerodiv), UnboundLocalError on a candidate edge all of whose vertices coincide (class zero-length-edge-unbound) — both mirrored by the models and "
+                       "compared —, AnalyticalFeatureError on a track without observation; that the index only answers numbers of registered edges is C08's subject (no soundness theorem "
+                       "there yet: it is a hypothesis of returns_on_regular_geometries)",
                        "IEEE rounding: the theorems are over an ordered field with an exact square root; the float behaviour is sampled by the transfer check (tolerance 1e-9 relative)",
                        "which length 'the edge length' is: the code measures planimetrically (abs_curv = sums of distance2DTo, assigned point with U = 0, __distToNode with distance2DTo): the "
                        "theorems of Part IV state d0 + d1 = planimetric length of the stored geometry; Track.length() / Edge.weight is the 3D length (weight_is_3d_length) and differs on every "
